@@ -146,6 +146,24 @@ CHECKS = {
              note=T_BASE + '; loop shape (`for byte in data`, no break/continue, single state variable) checked structurally on the AST',
              technique='AST-generated verification conditions (bit-vector step lemma + loop invariant), z3',
              design_ref='DESIGN.md §5 C18'),
+ 'C16': dict(category='other',
+             text='Deductive, per covered TL-B type (59 types: Transaction and the seven description kinds, all phases, in/out message '
+                  'descriptors and envelopes incl. v2/metadata/deferred kinds, accounts, shard accounts, block header types, value flows, '
+                  'shard descriptors, McStateExtra/McBlockExtra/BlockExtra/ShardState/Block, validator sets, catchain config): an ENCODER '
+                  'GENERATED FROM THE SCHEMA TEXT (vf/spec/tlb.py reads /repo block.tlb each run + a small supplement) emits the encoding '
+                  'of a value whose fields are all SYMBOLIC over their full range; the real deserialize runs on encoding ++ rest and every '
+                  'returned field must equal the encoded value (unsigned stays unsigned), with exactly the encoded bits and references '
+                  'consumed.  Shape choices are a finite case split: every constructor alternative, every Maybe/Either/conditional field '
+                  'and guard value, every alternative of direct fields, dictionary shapes (empty / one leaf / fork with and without a '
+                  'common prefix; plain, inline and augmented), address kinds, and var-integer byte lengths rotated so each field takes '
+                  'each length; exhaustive up to 40 combinations per type, otherwise a covering sample (every alternative of every choice '
+                  'point at least twice) - stated per type in the evidence.  Nested types appear under two profiles (all-first / all-last '
+                  'alternatives) and are themselves obligations.  NOT deductive: dictionaries beyond two leaves (C09/C10 carry the tree '
+                  'walk), the composition over unboundedly nested ^Transaction chains.  Known finding: addr_var addresses.',
+             note=T_BASE + '; the TL-B reader/encoder in vf/spec/tlb.py and the attribute-name map in harness/tlbcheck.py (which library '
+                  'attribute carries which schema field) are trusted; leaf cells have concrete depth 0',
+             technique='contracts (field-by-field postconditions generated from block.tlb) on the real deserialize functions, symbolic execution over all paths per shape, z3 (LIA); finite shape split partly sampled, hence level other',
+             design_ref='DESIGN.md §5 C16'),
  'C06': dict(category='proof',
              text='Per-operation two-sided contracts proved on the real Builder/Slice/TvmBitarray code for symbolic values at a '
                   'symbolic fill level p (opaque prefix) and with an opaque rest R of symbolic length: store_X writes exactly the TL-B '
